@@ -123,6 +123,16 @@ def d_read_leftover():
     >>> print(leftover)
     """
 
+def d_exit_early():
+    """
+    >>> print(sorted(k for k in globals() if k.startswith('tmp_')))
+    []
+    >>> tmp_first = 1
+    >>> import xdoctest
+    >>> raise xdoctest.ExitTestException()
+    >>> print('never')
+    """
+
 def d_requires_dotted_missing():
     """
     >>> # xdoctest: +REQUIRES(module:json.xdverif_no_such_submodule)
